@@ -45,20 +45,20 @@ type intrEv struct {
 }
 
 type totalCase struct {
-	AF, BC, DE, HL     uint16
-	IX, IY, SP, PC     uint16
-	IR                 uint16
-	IFF1, IFF2         bool
-	IM                 int
-	MemKind            int   // 0: 64 KiB array, 1: DumbMemory of MemLen bytes, 2: MapMemory
-	MemLen             int
-	IOKind             int   // 0: nil, 1: DumbIO of IOLen bytes, 2: recording
-	IOLen              int
-	Code               []int // placed at PC
-	Tail               []int // placed at 0xFFF0..
-	Fill               int   // byte the 64 KiB array / DumbMemory is filled with
-	Intr               []intrEv
-	Steps              int
+	AF, BC, DE, HL uint16
+	IX, IY, SP, PC uint16
+	IR             uint16
+	IFF1, IFF2     bool
+	IM             int
+	MemKind        int // 0: 64 KiB array, 1: DumbMemory of MemLen bytes, 2: MapMemory
+	MemLen         int
+	IOKind         int // 0: nil, 1: DumbIO of IOLen bytes, 2: recording
+	IOLen          int
+	Code           []int // placed at PC
+	Tail           []int // placed at 0xFFF0..
+	Fill           int   // byte the 64 KiB array / DumbMemory is filled with
+	Intr           []intrEv
+	Steps          int
 }
 
 type cntMem struct {
